@@ -619,4 +619,217 @@ theorem as_f64_ok {dbg : Bool} {v : IrValue} {a : F64} (h : IrValue.as_f64 dbg v
   case F64 x => exact Or.inr (by rw [h])
 end
 
+/-! ## 5. vocabulary for the C01 / C10 statements -/
+
+@[reducible] def IntKind.signed : IntKind → Bool
+  | .Signed => true
+  | .Unsigned => false
+
+/-- the CLIF type of an integer of that size. -/
+def IntSize.cty : IntSize → CTy
+  | .I8 => .I8 | .I16 => .I16 | .I32 => .I32 | .I64 => .I64
+
+abbrev IntSize.bits (sz : IntSize) : Nat := sz.cty.bits
+
+theorem IntSize.cty_notFloat (sz : IntSize) : sz.cty.isFloat = false := by cases sz <;> rfl
+theorem IntSize.bits_pos (sz : IntSize) : 0 < sz.bits := by cases sz <;> decide
+theorem IntSize.bits_le (sz : IntSize) : sz.bits ≤ 64 := CTy.bits_le _
+
+/-- the values of the script type `Primitive.Int k sz`: Rust integers of that signedness and width. -/
+abbrev PInt (k : IntKind) (sz : IntSize) := RInt k.signed sz.bits
+
+/-- the `IrType` of `Primitive.Int k sz` (specification for the generated `lower_type_prim`). -/
+def irTypeOf : IntKind → IntSize → IrType
+  | .Unsigned, .I8 => .U8 | .Unsigned, .I16 => .U16 | .Unsigned, .I32 => .U32 | .Unsigned, .I64 => .U64
+  | .Signed, .I8 => .I8 | .Signed, .I16 => .I16 | .Signed, .I32 => .I32 | .Signed, .I64 => .I64
+
+/-- the `IrValue` carrying an integer of type `Primitive.Int k sz`. -/
+def IrValue.ofPInt : (k : IntKind) → (sz : IntSize) → PInt k sz → IrValue
+  | .Unsigned, .I8, x => .U8 x | .Unsigned, .I16, x => .U16 x
+  | .Unsigned, .I32, x => .U32 x | .Unsigned, .I64, x => .U64 x
+  | .Signed, .I8, x => .I8 x | .Signed, .I16, x => .I16 x
+  | .Signed, .I32, x => .I32 x | .Signed, .I64, x => .I64 x
+
+/-- the SSA value holding an integer: CLIF type of its size, its own bits. -/
+def cvInt {k : IntKind} {sz : IntSize} (x : PInt k sz) : CVal := CVal.ofBv sz.cty x.bv
+
+theorem jitRepr_ofPInt (k : IntKind) (sz : IntSize) (x : PInt k sz) :
+    jitRepr (IrValue.ofPInt k sz x) = some (cvInt x) := by
+  cases k <;> cases sz
+  · exact jitRepr_U8 x
+  · exact jitRepr_U16 x
+  · exact jitRepr_U32 x
+  · exact jitRepr_U64 x
+  · exact jitRepr_I8 x
+  · exact jitRepr_I16 x
+  · exact jitRepr_I32 x
+  · exact jitRepr_I64 x
+
+/-- operand environment of a binary operator: `Side.lhs` is the source-left operand. -/
+def operands (l r : CVal) : Side → CVal
+  | .lhs => l
+  | .rhs => r
+
+section
+variable [FloatOps]
+/-- Instruction-kind dispatch of `FuncGen::instruction` (src/codegen/mod.rs): hand-written glue,
+    every arm it dispatches to is generated.  `CallEq` is `Lowerer::call_eq_of` restricted to its
+    scalar arms (src/lir/lower/eq.rs:34-61, hand-modelled): an `IntCmp`/`FloatCmp` with `Eq`/`Ne`. -/
+def runInstr (dbg : Bool) (i : Instruction) (env : Side → CVal) : Res CVal :=
+  match i with
+  | .IntCmp _ cmp l r => cg_IntCmp dbg cmp (env l) (env r)
+  | .FloatCmp _ cmp l r => cg_FloatCmp dbg cmp (env l) (env r)
+  | .Add _ l r => cg_Add dbg (env l) (env r)
+  | .Sub _ l r => cg_Sub dbg (env l) (env r)
+  | .Mul _ l r => cg_Mul dbg (env l) (env r)
+  | .Div _ l r signed => cg_Div dbg signed (env l) (env r)
+  | .Mod _ l r signed => cg_Mod dbg signed (env l) (env r)
+  | .FDiv _ l r => cg_FDiv dbg (env l) (env r)
+  | .CallEq negate l r =>
+    if (env l).ty.isFloat then cg_FloatCmp dbg (if negate then .Ne else .Eq) (env l) (env r)
+    else cg_IntCmp dbg (if negate then .Ne else .Eq) (env l) (env r)
+end
+
+/-- destination type of an instruction. -/
+def Instruction.dest : Instruction → IrType
+  | .IntCmp t .. | .FloatCmp t .. | .Add t .. | .Sub t .. | .Mul t .. | .Div t .. | .Mod t ..
+  | .FDiv t .. => t
+  | .CallEq .. => .Bool
+
+
+/-! ### bit-vector results as language-level `Int` results -/
+namespace RInt
+variable {s : Bool} {w : Nat}
+
+theorem bv_add (a b : RInt s w) : a.bv + b.bv = BitVec.ofInt w (a.val + b.val) := by
+  rw [BitVec.ofInt_add, ofInt_val, ofInt_val]
+theorem bv_sub (a b : RInt s w) : a.bv - b.bv = BitVec.ofInt w (a.val - b.val) := by
+  rw [Int.sub_eq_add_neg, BitVec.ofInt_add, BitVec.ofInt_neg, ofInt_val, ofInt_val, BitVec.sub_eq_add_neg]
+theorem bv_mul (a b : RInt s w) : a.bv * b.bv = BitVec.ofInt w (a.val * b.val) := by
+  rw [BitVec.ofInt_mul, ofInt_val, ofInt_val]
+theorem bv_neg (a : RInt s w) : - a.bv = BitVec.ofInt w (- a.val) := by
+  rw [BitVec.ofInt_neg, ofInt_val]
+
+/-- `sdiv` is truncating division of the signed values, except at `MIN / -1`. -/
+theorem bv_sdiv (h0 : 0 < w) (a b : RInt true w) (hg : ¬(a.val = minVal true w ∧ b.val = -1)) :
+    a.bv.sdiv b.bv = BitVec.ofInt w (a.val.tdiv b.val) := by
+  simp only [val, if_true]
+  rw [← BitVec.toInt_sdiv_of_ne_or_ne, BitVec.ofInt_toInt]
+  rw [BitVec.neg_one_eq_allOnes]
+  by_cases h : a.bv = BitVec.intMin w
+  · right; intro hb; exact hg ⟨(val_eq_min h0 a).mpr h, (val_eq_neg_one h0 b).mpr hb⟩
+  · left; exact h
+theorem bv_udiv (a b : RInt false w) : a.bv / b.bv = BitVec.ofInt w (a.val.tdiv b.val) := by
+  simp only [val, Bool.false_eq_true, if_false]
+  rw [← Int.ofNat_tdiv, ← BitVec.toNat_udiv, BitVec.ofInt_natCast, BitVec.ofNat_toNat, BitVec.setWidth_eq]
+/-- `srem` is the truncating remainder of the signed values (sign of the dividend), everywhere. -/
+theorem bv_srem (a b : RInt true w) : a.bv.srem b.bv = BitVec.ofInt w (a.val.tmod b.val) := by
+  simp only [val, if_true]
+  rw [← BitVec.toInt_srem, BitVec.ofInt_toInt]
+theorem bv_umod (a b : RInt false w) : a.bv % b.bv = BitVec.ofInt w (a.val.tmod b.val) := by
+  simp only [val, Bool.false_eq_true, if_false]
+  rw [← Int.ofNat_tmod, ← BitVec.toNat_umod, BitVec.ofInt_natCast, BitVec.ofNat_toNat, BitVec.setWidth_eq]
+
+theorem bv_eq_iff (a b : RInt s w) : (a.bv == b.bv) = decide (a.val = b.val) := by
+  rw [← decide_eq a b]
+  by_cases h : a = b
+  · simp [h]
+  · have : a.val ≠ b.val := fun hv => h (val_inj.mp hv)
+    simp [h, this]
+theorem slt_iff (a b : RInt true w) : a.bv.slt b.bv = decide (a.val < b.val) := by
+  simp [val, BitVec.slt]
+theorem ult_iff (a b : RInt false w) : a.bv.ult b.bv = decide (a.val < b.val) := by
+  simp [val, BitVec.ult]
+end RInt
+
+/-! ### the arms on typed integer operands, in language terms -/
+
+/-- reduce an `Int` result mod 2^w and reinterpret by the type's signedness. -/
+def wrap (k : IntKind) (sz : IntSize) (i : Int) : PInt k sz := RInt.ofInt _ _ i
+
+/-- `MIN / -1` on a signed type (its quotient is not representable). -/
+def isMinDivNegOne {k : IntKind} {sz : IntSize} (a b : PInt k sz) : Prop :=
+  k = .Signed ∧ a.val = RInt.minVal true sz.bits ∧ b.val = -1
+
+instance {k sz} (a b : PInt k sz) : Decidable (isMinDivNegOne a b) := by
+  unfold isMinDivNegOne; infer_instance
+
+/-- the generated `Div` arm with the flag of the operand type, on all operands: traps exactly at a
+    zero divisor and at `MIN / -1`, otherwise truncating division of the values. -/
+theorem cg_Div_pint (dbg : Bool) (k : IntKind) (sz : IntSize) (a b : PInt k sz) :
+    cg_Div dbg k.signed (cvInt a) (cvInt b) =
+      if b.val = 0 ∨ isMinDivNegOne a b then .panic
+      else .ok (cvInt (wrap k sz (a.val.tdiv b.val))) := by
+  cases k
+  · -- unsigned
+    show cg_Div dbg false (CVal.ofBv sz.cty a.bv) (CVal.ofBv sz.cty b.bv) = _
+    rw [cg_Div_unsigned dbg sz.cty sz.cty_notFloat rfl]
+    simp only [← RInt.val_eq_zero]
+    have : ¬ isMinDivNegOne a b := fun h => by cases h.1
+    simp only [this, or_false]
+    split
+    · rfl
+    · rw [RInt.bv_udiv]; rfl
+  · show cg_Div dbg true (CVal.ofBv sz.cty a.bv) (CVal.ofBv sz.cty b.bv) = _
+    rw [cg_Div_signed dbg sz.cty sz.cty_notFloat rfl]
+    simp only [← RInt.val_eq_zero, ← RInt.val_eq_min sz.bits_pos, ← RInt.val_eq_neg_one sz.bits_pos]
+    by_cases h0 : b.val = 0
+    · simp [h0]
+    · by_cases h1 : a.val = RInt.minVal true sz.bits ∧ b.val = -1
+      · have : isMinDivNegOne a b := ⟨rfl, h1⟩
+        simp [h1, this]
+      · have : ¬ isMinDivNegOne a b := fun h => h1 h.2
+        rw [if_neg h0, if_neg h1, if_neg (by simp [h0, this])]
+        rw [RInt.bv_sdiv sz.bits_pos a b h1]; rfl
+
+/-- the generated `Mod` arm with the flag of the operand type, on all operands: traps exactly at
+    a zero divisor (`MIN % -1` is 0), otherwise the truncating remainder of the values. -/
+theorem cg_Mod_pint (dbg : Bool) (k : IntKind) (sz : IntSize) (a b : PInt k sz) :
+    cg_Mod dbg k.signed (cvInt a) (cvInt b) =
+      if b.val = 0 then .panic else .ok (cvInt (wrap k sz (a.val.tmod b.val))) := by
+  cases k
+  · show cg_Mod dbg false (CVal.ofBv sz.cty a.bv) (CVal.ofBv sz.cty b.bv) = _
+    rw [cg_Mod_unsigned dbg sz.cty sz.cty_notFloat rfl]
+    simp only [← RInt.val_eq_zero]
+    split
+    · rfl
+    · rw [RInt.bv_umod]; rfl
+  · show cg_Mod dbg true (CVal.ofBv sz.cty a.bv) (CVal.ofBv sz.cty b.bv) = _
+    rw [cg_Mod_signed dbg sz.cty sz.cty_notFloat rfl]
+    simp only [← RInt.val_eq_zero]
+    split
+    · rfl
+    · rw [RInt.bv_srem]; rfl
+
+/-- the language-level meaning of each LIR comparison on an integer type whose signedness matches
+    the comparison's. -/
+theorem intCmpSpec_signed {w : Nat} (a b : RInt true w) :
+    intCmpSpec .SLt a.bv b.bv = decide (a.val < b.val) ∧ intCmpSpec .SLe a.bv b.bv = decide (a.val ≤ b.val)
+    ∧ intCmpSpec .SGt a.bv b.bv = decide (a.val > b.val) ∧ intCmpSpec .SGe a.bv b.bv = decide (a.val ≥ b.val) := by
+  simp only [intCmpSpec, RInt.slt_iff, ← decide_not, Int.not_lt, gt_iff_lt, ge_iff_le, and_self]
+theorem intCmpSpec_unsigned {w : Nat} (a b : RInt false w) :
+    intCmpSpec .ULt a.bv b.bv = decide (a.val < b.val) ∧ intCmpSpec .ULe a.bv b.bv = decide (a.val ≤ b.val)
+    ∧ intCmpSpec .UGt a.bv b.bv = decide (a.val > b.val) ∧ intCmpSpec .UGe a.bv b.bv = decide (a.val ≥ b.val) := by
+  simp only [intCmpSpec, RInt.ult_iff, ← decide_not, Int.not_lt, gt_iff_lt, ge_iff_le, and_self]
+theorem intCmpSpec_eq {s : Bool} {w : Nat} (a b : RInt s w) :
+    intCmpSpec .Eq a.bv b.bv = decide (a.val = b.val) ∧ intCmpSpec .Ne a.bv b.bv = decide (a.val ≠ b.val) := by
+  simp only [intCmpSpec, bne, RInt.bv_eq_iff, ← decide_not, and_self]
+
+
+namespace RInt
+/-- a value inside the type's range survives `ofInt` (no wrap). -/
+theorem val_ofInt_of_inRange {s : Bool} {w : Nat} (h0 : 0 < w) {i : Int} (h : inRange s w i = true) :
+    (ofInt s w i).val = i := by
+  simp only [inRange, Bool.and_eq_true, decide_eq_true_eq] at h
+  cases s
+  · simp only [minVal, maxVal, Bool.false_eq_true, if_false] at h
+    simp only [val, ofInt, Bool.false_eq_true, if_false, BitVec.toNat_ofInt]
+    have hp : (0:Int) < ((2 ^ w : Nat) : Int) := by exact_mod_cast Nat.two_pow_pos w
+    have : i % ((2 ^ w : Nat) : Int) = i := Int.emod_eq_of_lt h.1 (by have := h.2; simp only [Int.natCast_pow, Int.cast_ofNat_Int]; omega)
+    rw [this]; exact Int.toNat_of_nonneg h.1
+  · simp only [minVal, maxVal, if_true] at h
+    simp only [val, ofInt, if_true]
+    exact BitVec.toInt_ofInt_eq_self h0 h.1 (by omega)
+end RInt
+
 end RotoV
